@@ -427,6 +427,9 @@ class annotate(object):
         func.__signature__ = sig
         for pok in reversed(poks):
             pok._prepare()
+            # bound versions handed out earlier were prepared from the
+            # signature as it was: let the next lookup make new ones
+            pok.insts.clear()
         return obj
 
     def __repr__(self):
